@@ -351,11 +351,11 @@ static int ex_region(char *loc, int *beg, int *end)
 	}
 	if (*beg < 0 && *end == 0)
 		*beg = 0;
+	else if (*end == *beg)		/* a reversed range such as 4,3 or 1,0 */
+		return 1;
 	if (*beg < 0 || *beg >= lbuf_len(xb))
 		return 1;
 	if (*end < *beg || *end > lbuf_len(xb))
-		return 1;
-	if (*end == *beg && *end)	/* a reversed range such as 4,3 */
 		return 1;
 	return 0;
 }
